@@ -356,7 +356,7 @@ def run_fence(owner, method, deviations=None, after=False, owner_raises=False):
         return os.path.join(root, rel) if rel else root
     s = sched.Scheduler(deviations)
     ran = []
-    st = {'res': None, 'tid': None, 'gate': False}
+    st = {'res': None, 'tid': None, 'gate': False, 'closed_idx': None}
     out = {}
     try:
         def straggler(b):
@@ -391,6 +391,8 @@ def run_fence(owner, method, deviations=None, after=False, owner_raises=False):
             except Boom:
                 if owner == 'root':
                     raise
+            if owner != 'root':
+                st['closed_idx'] = len(s.trace)    # the owner's call has returned: its record is closed
             st['gate'] = True
             if owner != 'root':
                 s.join([st['tid']])
@@ -401,6 +403,8 @@ def run_fence(owner, method, deviations=None, after=False, owner_raises=False):
                 r = ['ok', FB.build(cache, 'n', rootf)]
             except Exception as e:
                 r = ['exc', type(e).__name__, str(e)[:100]]
+            if st['closed_idx'] is None:
+                st['closed_idx'] = len(s.trace)
             st['gate'] = True
             s.join([st['tid']])
             return r
@@ -411,6 +415,9 @@ def run_fence(owner, method, deviations=None, after=False, owner_raises=False):
             except sched.Deadlock as e:
                 out['root'] = ['deadlock', str(e)[:100]]
         out['straggler'] = st['res']
+        # file-system calls the straggler's call made after the owner's call had returned
+        out['late_obs'] = [n for (i, tid, n) in s.fs_exec
+                           if tid == st['tid'] and st['closed_idx'] is not None and i > st['closed_idx']]
         out['ran'] = list(ran)
         out['tree'] = snapshot_simple(root, cache)
         cj = realrun.read_cache_json(cache) if os.path.isfile(cache) else None
@@ -453,6 +460,10 @@ def judge_fence(owner, method, o):
         if in_cache:
             problems.append({'what': 'fenced call is in the cache record', 'where': in_cache, 'kind': 'straggler_runs_after_close'})
     elif res[0] == 'ok':
+        if not complex_ and o.get('late_obs'):
+            problems.append({'what': 'an operation that looked at the file system after the record was closed completed normally '
+                                     '(its observation is attached to a closed record)', 'late_calls': o['late_obs'][:5],
+                             'kind': 'observation_after_close'})
         # completed before the close: must be part of the owner's record
         if owner != 'root' and o['root'][0] == 'ok':
             if not any(parents and parents[-1] == 'owner' for parents in in_cache):
